@@ -1856,9 +1856,14 @@ func callBin(n *node) {
 				return tnext
 			}
 		case aReturn:
-			// The function call is part of a return statement, store output results
-			// directly in the frame location of outputs of the current function.
-			b := childPos(n)
+			// The function call is the operand of a return statement, store output results
+			// directly in the frame location of outputs of the current function. With other
+			// operands, store the result in the location given to the call, which differs
+			// if another operand reads this output: the return statement assigns them.
+			b := 0
+			if len(n.anc.child) > 1 {
+				b = n.findex
+			}
 			n.exec = func(f *frame) bltn {
 				in := make([]reflect.Value, l)
 				for i, v := range values {
